@@ -28,6 +28,8 @@ RULE = ("part 'memory': 2-4 threads run short op lists (write with the thread's 
         "messages; finally messages[i]/serializers[i] carry the same writer tag, each thread's retained messages are a suffix of what "
         "it wrote in order, serialize() results are aligned, no traceback is flushed twice, no call raised. part 'filesched': two or "
         "three threads call one FileDestination (recording file) under all 1-preemption schedules: every write is one complete line. "
+        "Every eighth op-list set has one thread parked inside write() by an arbitrarily slow serializer (logical clock thread; a timed lock "
+        "acquire in the code under test expires only when nothing else can run) or has serializers raising a non-Exception in the middle of write(). "
         "part 'loggersched': two threads make the first-ever writes of one MessageType through the production Logger to a registered "
         "destination while (odd cases) a third adds global fields, LINE events on _output.py and _validation.py, all 1-preemption schedules: each "
         "message delivered exactly once with every field serialized, nothing raised, nothing else delivered. part 'filestress': 8-16 OS-scheduled threads (switch interval 1e-6) write to one real file (buffered, unbuffered, text): "
